@@ -148,12 +148,52 @@ class Facts:
     def __init__(self, data, info=None):
         self.data = data
         self.info = info or {}
-        self.bodies = {b["path"]: b for b in data["bodies"]}
+        self.raw_bodies = {b["path"]: b for b in data["bodies"]}
+        self._spliced_bodies = None
         self.adts = {a["path"]: a for a in data["adts"]}
         self.hir = {h["path"]: h for h in data["hir"]}
         self.layouts = {l["ty"]: l for l in data["layouts"]}
         self.files = data["files"]
         self._wrapped = {}
+
+    @property
+    def bodies(self):
+        """function bodies by path.  While mir.Walker.AUTO_INLINE is on (the default), functions that do not exist on the
+        pinned tree are spliced into their callers (tmv/splice.py); rule sets that inventory every function on its own
+        switch it off and see the bodies as compiled."""
+        from . import mir
+        if not mir.Walker.AUTO_INLINE:
+            return self.raw_bodies
+        if self._spliced_bodies is None:
+            from . import splice
+            self._spliced_bodies = self.raw_bodies      # (while the pure predicates are being computed)
+            saved = mir.Walker.AUTO_INLINE
+            mir.Walker.AUTO_INLINE = False
+            try:
+                pure = getattr(self, "_pure_fns", None)
+                if pure is None:
+                    pure = mir._pure_local_predicates(self)
+                    self._pure_fns = pure
+            finally:
+                mir.Walker.AUTO_INLINE = saved
+            self._spliced_bodies = splice.splice_all(self.raw_bodies, pure)
+            self._spliced_away = splice.spliced_away(self.raw_bodies, self._spliced_bodies)
+        return self._spliced_bodies
+
+    @property
+    def spliced_away(self):
+        """new helpers that exist only inside their callers now (see splice.spliced_away); empty while splicing is off"""
+        from . import mir
+        if not mir.Walker.AUTO_INLINE:
+            return set()
+        self.bodies
+        return getattr(self, "_spliced_away", set())
+
+    def __setstate__(self, st):
+        self.__dict__.update(st)
+        if "raw_bodies" not in self.__dict__ and "bodies" in st:
+            self.raw_bodies = st["bodies"]
+            self._spliced_bodies = None
 
     @staticmethod
     def load(repo=None):
